@@ -50,7 +50,8 @@ SOURCE["ppid"] = "stat"
 FRONT_MEMOIZED = {"cpu_times", "uids", "ppid", "memory_info"}
 SOURCE["username"] = "status"
 SOURCE["cpu_percent"] = "stat"
-SOURCE["cpu_percent_blocking"] = "stat"        # cpu_percent(interval>0): two samples around a sleep, same cache rules
+SOURCE["cpu_percent_blocking"] = "stat"
+SOURCE["repr"] = "stat"                        # str()/repr() of the object (logging, f-strings): name() + status()        # cpu_percent(interval>0): two samples around a sleep, same cache rules
 
 _env = {}
 
@@ -161,7 +162,7 @@ def gen_events(rng):
             ev.append(["exit_exc" if rng.random() < 0.3 else "exit"])
             depth -= 1
         elif r < 0.80:
-            ev.append(["call", rng.choice(STAT_M[:2] * 3 + STATUS_M * 2 + SMAPS_M + OTHER_M + ["ppid", "cpu_percent", "username", "memory_percent", "cpu_percent_blocking"])])
+            ev.append(["call", rng.choice(STAT_M[:2] * 3 + STATUS_M * 2 + SMAPS_M + OTHER_M + ["ppid", "cpu_percent", "username", "memory_percent", "cpu_percent_blocking", "repr"])])
         elif r < 0.84:
             ev.append(["vanish"])
         elif r < 0.88:
@@ -285,7 +286,8 @@ def run_events(events, acc):
                 c0 = w.counter
                 denied_before = pending_deny[0]
                 try:
-                    val = pr.cpu_percent(interval=0.0005) if m == "cpu_percent_blocking" else getattr(pr, m)()
+                    val = (pr.cpu_percent(interval=0.0005) if m == "cpu_percent_blocking" else
+                           (repr(pr) if w.counter % 2 else str(pr)) if m == "repr" else getattr(pr, m)())
                     res = ("ok", val)
                     if isinstance(val, (list, dict)):
                         # the caller owns what it was handed: scribbling on it must not change any later answer
